@@ -140,3 +140,20 @@ let () =
   register "pathjoin" (fun tk -> match tk with
     | _ :: hs -> obs "pathjoin %s" (hex_of_bytes (path_join (List.map bytes_of_hex hs)))
     | _ -> failwith "pathjoin")
+
+(* tsapi F U S n v.. | F U S n v.. : TimeSeries.EqualTimeRangeAndStep / Equal / DiffPoints /
+   DiffPointsExcludeSrcNaN, Points.Equal / Diff (Model/Cmd.v) *)
+let () =
+  register "tsapi" (fun tk ->
+    let rec split acc = function "|" :: r -> (List.rev acc, r) | t :: r -> split (t :: acc) r | [] -> failwith "tsapi" in
+    let (l, r) = split [] (List.tl tk) in
+    let mk = function
+      | f :: u :: st :: _n :: vs -> { s_from = z_of_dec f; s_until = z_of_dec u; s_step = z_of_dec st; s_vals = List.map z_of_hex vs }
+      | _ -> failwith "tsapi series" in
+    let a = mk l and b = mk r in
+    let show (p, q) =
+      let f pp = "[" ^ String.concat " " (List.map (fun x -> dec_of_z x.p_time ^ ":" ^ show_val x.p_val) pp) ^ "]" in
+      f p ^ "|" ^ f q in
+    let pa = series_points a and pb = series_points b in
+    obs "tsapi eqrs=%b equal=%b diff=%s diffx=%s peq=%b pdiff=%s" (eq_range_step a b) (series_equal a b)
+      (show (diff_points true a b)) (show (diff_points false a b)) (points_equal pa pb) (show (points_diff pa pb)))
